@@ -145,6 +145,12 @@ def run(tier: str, replay: str | None = None):
         for i in range(3 if tier == "quick" else 30):
             src, calls = G.gen_match_module(mrng, 12, hist)
             mods.append({"id": f"match{i}", "src": src, "calls": calls})
+        # every binding form as a value source (except / except* / with-as / for targets / walrus / comprehension
+        # variables / import-as / global / nonlocal), bound names and derived values read afterwards
+        brng = random.Random(lib.seed() * 7919 + 6421)
+        for i in range(3 if tier == "quick" else 30):
+            src, calls = G.gen_binding_module(brng, 12, hist)
+            mods.append({"id": f"bind{i}", "src": src, "calls": calls})
     by_id = {m["id"]: m for m in mods}
 
     # 3. run implementation + CPython + oracle (subprocess shards)
